@@ -86,7 +86,7 @@ Definition run_aop (w : aworld) (o : aop) : MA value :=
           | None => raise EKey
           | Some u =>
               ensure EValue (mem u (mgr asrc)) ;;;
-              r <- lift (copy_bdd (mgr asrc) u) ;;
+              r <- lift (copy_bdd_pub (mgr asrc) u) ;;
               h <- wrap r ;; ret (VN h)
           end
       end
